@@ -402,6 +402,11 @@ func init() {
 			{Services: []cfgService{{Name: "app", Clusters: []string{"default"}, Blocks: []cfgBlock{{Route: base, Extras: []cfgRoute{{From: "api.x.io"}, {From: "adm.x.io", To: "adm.internal", Options: O(func(o *cfgOpts) { o.Addrs = []string{"root@x.io"}; o.Timeout = 9 })}}}}}}, Cluster: "prod", DefDoms: []string{"x.io"}},
 			{Services: []cfgService{{Name: "app", Clusters: []string{"default"}, Blocks: []cfgBlock{{Route: cfgRoute{From: "{{cluster}}.x.io", To: "app.{{cluster}}.internal"}}}}}, Cluster: "prod", DefDoms: []string{"x.io"}, Vars: map[string]string{"cluster": "prod", "app_signing_key": "sha256:secret"}},
 			{Services: []cfgService{{Name: "app", Clusters: []string{"default"}, Blocks: []cfgBlock{{Route: base}}}}, Cluster: "prod", Vars: map[string]string{"app_signing_key": "nope"}},
+			// template variables the deployment does not define stay as written (and never turn a pattern into one that matches everything)
+			{Services: []cfgService{{Name: "app", Clusters: []string{"default"}, Blocks: []cfgBlock{{Route: cfgRoute{From: "app.x.io", To: "app.internal", Options: O(func(o *cfgOpts) { o.SkipAuthRegex = []string{"^{{webhook_path}}", "{{public_prefix}}"} })}}}}}, Cluster: "prod", DefDoms: []string{"x.io"}, Vars: map[string]string{"cluster": "prod"}},
+			{Services: []cfgService{{Name: "app", Clusters: []string{"default"}, Blocks: []cfgBlock{{Route: cfgRoute{From: "app.x.io", To: "app.{{zone}}.internal"}}}}}, Cluster: "prod", DefDoms: []string{"x.io"}, Vars: map[string]string{"cluster": "prod"}},
+			{Services: []cfgService{{Name: "app", Clusters: []string{"default"}, Blocks: []cfgBlock{{Route: cfgRoute{From: "{{ cluster }}.x.io", To: "app.{{CLUSTER}}.internal"}}}}}, Cluster: "prod", DefDoms: []string{"x.io"}, Vars: map[string]string{"cluster": "prod"}},
+			{Services: []cfgService{{Name: "app", Clusters: []string{"default"}, Blocks: []cfgBlock{{Route: cfgRoute{From: "{{cluster}}.x.io", To: "app.internal"}}}}}, Cluster: "prod", DefDoms: []string{"x.io"}},
 			{Services: []cfgService{{Name: "app", Clusters: []string{"staging"}, Blocks: []cfgBlock{{Route: base}}}}, Cluster: "prod", DefDoms: []string{"x.io"}},
 			{Services: []cfgService{{Name: "app", Clusters: []string{"default", "prod"}, Blocks: []cfgBlock{{Null: true}, {Route: base}}}}, Cluster: "prod"},
 			{Services: []cfgService{{Name: "app", Clusters: []string{"default"}, Blocks: []cfgBlock{{Route: base}}}}, Cluster: "default", DefDoms: []string{"x.io"}},
@@ -409,11 +414,11 @@ func init() {
 		for _, c := range prelude {
 			emit(c)
 		}
-		hosts := []string{"app.x.io", "api.x.io", "{{cluster}}.x.io", "a b%zz", "x.io:8443", "https://s.x.io"}
-		tos := []string{"app.internal", "http://app.internal:8080", "app.{{cluster}}.internal", "%%%"}
+		hosts := []string{"app.x.io", "api.x.io", "{{cluster}}.x.io", "a b%zz", "x.io:8443", "https://s.x.io", "app.{{zone}}.x.io", "{{ cluster }}.x.io"}
+		tos := []string{"app.internal", "http://app.internal:8080", "app.{{cluster}}.internal", "%%%", "app.{{zone}}.internal", "{{CLUSTER}}.internal"}
 		pick := func(l []string) string { return l[rng.Intn(len(l))] }
 		lists := [][]string{nil, nil, {"a"}, {"a", "b"}, {"*"}}
-		regs := [][]string{nil, nil, {"^/health$"}, {"^/a", "("}, {"^/{{cluster}}/"}}
+		regs := [][]string{nil, nil, {"^/health$"}, {"^/a", "("}, {"^/{{cluster}}/"}, {"^{{webhook_path}}"}, {"{{public_prefix}}", "^/ok$"}, {"^/{{ cluster }}/"}}
 		maps := []map[string]string{nil, nil, {"X-Frame-Options": "DENY"}, {"X-A": "1", "X-B": ""}, {"X-A": "2"}}
 		mkOpts := func() *cfgOpts {
 			if rng.Intn(3) == 0 {
@@ -446,6 +451,9 @@ func init() {
 			r := cfgRoute{Options: mkOpts()}
 			if rng.Intn(6) > 0 {
 				r.From = pick(hosts[:3])
+				if rng.Intn(10) == 0 {
+					r.From = pick(hosts[6:])
+				}
 				if rng.Intn(15) == 0 {
 					r.From = pick(hosts)
 				}
@@ -480,6 +488,10 @@ func init() {
 		}
 		for k := 0; k < n; k++ {
 			c := cfgCase{Cluster: pick([]string{"prod", "prod", "staging", "default"}), Vars: map[string]string{"cluster": "prod"}}
+			if rng.Intn(6) == 0 {
+				// the deployment does not define the variable the file uses (unset, misspelt): the text stays as written
+				c.Vars = map[string]string{pick([]string{"Cluster", "clusters", "zone"}): "prod"}
+			}
 			ns := 1 + rng.Intn(3)
 			for i := 0; i < ns; i++ {
 				s := cfgService{Name: pick([]string{"app", "my app", " api ", "svc\t2", ""})}
